@@ -73,7 +73,7 @@ theorem no_internal_error (c : Cfg) (ps : List (List Nat)) (k : Nat) (e : Err)
   | error e' =>
     simp [hv] at h
     subst h
-    exact validate_not_internal c e' hv
+    exact validate_not_internal c _ hv
   | ok u =>
     simp only [hv, pure, Except.pure] at h
     cases k with
@@ -83,8 +83,9 @@ theorem no_internal_error (c : Cfg) (ps : List (List Nat)) (k : Nat) (e : Err)
       | none => rw [layoutSteps_init c ps hr] at h; cases h
       | some e' =>
         rw [layoutSteps_init_rejected c ps e' hr] at h
-        cases h
-        exact stepRejects_not_internal c ps e' hr
+        simp only [Except.error.injEq] at h
+        subst h
+        exact stepRejects_not_internal c ps _ hr
 
 /-- the constructor's rejections are explanatory -/
 theorem validate_rejects_explicitly (c : Cfg) (e : Err) (h : validate c = .error e) :
@@ -112,7 +113,7 @@ theorem sharded_init_no_internal_error (c : Cfg) (ps : List (List Nat)) (e : Err
   unfold shardedInit at h
   simp only [bind, Except.bind] at h
   cases hv : validate c with
-  | error e' => simp [hv] at h; subst h; exact validate_not_internal c e' hv
+  | error e' => simp [hv] at h; subst h; exact validate_not_internal c _ hv
   | ok u =>
     simp only [hv] at h
     split at h
@@ -145,17 +146,17 @@ theorem tearfree_layout_fixpoint (c : TFCfg) (ps : List (List Nat)) (L : TFLayou
 /-! ### non-vacuity -/
 
 def exCfg : Cfg :=
-  { blockSize := 4, bestEffortShape := true, mergeBlock := 4096, graftHasDiag := true, batchAxis := false,
+  { blockSize := 8, bestEffortShape := true, mergeBlock := 4096, graftHasDiag := true, batchAxis := false,
     shard := false, ndev := 2, memReduction := true, skipDimGt := 4096, skipRankLt := 1, lobpcgTopk := 0,
     ptype := .input, fdMetrics := true, trainMetrics := true, compRank := 2, fd := true, reset := false,
     avgGrad := true, reuse := true, eigh := false, statSteps := 2, precondSteps := 2, scheduled := false }
 
 /-- a frequent-directions configuration with compression that is accepted and not rejected at update time -/
-example : validate exCfg = .ok () ∧ stepRejects exCfg [[6, 5], [7], []] = none := by decide
+example : validate exCfg = .ok () ∧ stepRejects exCfg [[6, 5], [7], []] = none := ⟨rfl, by decide⟩
 
 /-- ... and one that is accepted by the constructor but rejected (explicitly) at the first update -/
 example : validate exCfg = .ok () ∧
-    stepRejects exCfg [[2, 2]] = some (.reject .update .assertionError) := by decide
+    stepRejects exCfg [[2, 2]] = some (.reject .update .assertionError) := ⟨rfl, by decide⟩
 
 example : specsFit [[3, 4], [5]] [["", ""], [""]] := by simp [specsFit]
 
@@ -167,7 +168,7 @@ example : (∀ d ∈ [[6, 5], [7]].flatMap (statDims { exCfg with shard := true 
 skipped parameters), the next update of a preconditioned parameter would fail its type check -/
 theorem d3_masked_avg_grad_breaks_update :
     computeStats exCfg [6, 5] { initParam exCfg [6, 5] with ag := none } =
-      .error (.internal .update "avg_grad is a MaskedNode") := by decide
+      .error (.internal .update "avg_grad is a MaskedNode") := by rfl
 
 /-- D6: a declaration with a float32 `count` is not the initial state's signature -/
 theorem d6_count_dtype_matters :
